@@ -5,6 +5,8 @@ def replay(rec):
     from sc62015.pysc62015.emulator import Emulator, RegisterName
     from binja_test_mocks.eval_llil import Memory
 
+    if rec.get("rust"):
+        return replay_rust(rec)
     if rec["sub"] != "hidden":
         # process / split counterexamples carry no data model: they hold for every input of the class
         print("structural counterexample:", rec["key"])
@@ -44,3 +46,38 @@ def replay(rec):
     if a != b:
         print("architectural results differ:", {k: (hex(a[0][k]), hex(b[0][k])) for k in a[0] if a[0][k] != b[0][k]}, a[2], b[2])
     return a != b
+
+
+HIDDEN_INPUTS = {**{f"h_temp{i}": 20 + i for i in range(14)}, "h_depth": 34, "h_sub": 35, "h_frame_dest": 36, "h_frame_bits": 37, "h_page": 38,
+                 "h_stale_fc": 45, "h_stale_fz": 46}
+
+
+def replay_rust(rec):
+    """The natively compiled harness (real LlamaExecutor::execute after the hidden history) run twice: same architectural
+    state, the two hidden valuations of the model (x and x'); or once without and once with a pending frame / saved page."""
+    from checks.replay_parity import run_rust
+
+    m = rec["model"]
+    regs = {n: int(m.get("r_" + n, 0)) for n in ("BA", "I", "X", "Y", "U", "S", "F")}
+    base = {"pc": rec["pc"], "regs": regs, "code": rec["code"], "mem": rec.get("mem", {}), "mem_default": rec.get("mem_default", 0)}
+
+    def run(primed, have):
+        extra = {39: have}
+        for name, idx in HIDDEN_INPUTS.items():
+            extra[idx] = int(m.get(name + "'" if primed and (name + "'") in m else name, 0))
+        r = run_rust(base, entry="harness_execute_hidden", extra=extra)
+        return (r["ret"], sorted(r["out"].items()), sorted(r["stores"]), r["rc"])
+
+    if rec["what"] == "hidden-values-change-the-outcome":
+        have = int(m.get("h_have", 0))
+        outs = [(run(False, h), run(True, h)) for h in ((have,) if "h_have" in m else (0, 3))]
+    else:
+        outs = [(run(False, 0), run(False, 3))]
+    for a, b in outs:
+        if a != b:
+            da = [x for x in a[1] if x not in b[1]][:4]
+            db = [x for x in b[1] if x not in a[1]][:4]
+            print("native harness results differ between the two hidden valuations:", a[0], b[0], da, db, [s for s in a[2] if s not in b[2]][:4])
+            return True
+    print("native harness results are identical for both hidden valuations")
+    return False
